@@ -163,7 +163,13 @@ CLAIMED = {
              "and radial matrices are SPD (C05.pd_dirichlet transported to the stored arrays), the innermost circle's matrix is the "
              "identity, hence LinesOK is a theorem and code_sweep_isSweep_dirichlet / code_sweep_energy_dirichlet hold with no hypothesis "
              "on the line solves: the modelled smoothing() never divides by zero, is an exact zebra relaxation and never increases the "
-             "energy norm of the error.",
+             "energy norm of the error.  GIVE STRATEGY (C06g): GMGModel/SmootherGiveCode.lean models SmootherGive (per-node accumulating "
+             "stores of the scatter assembly incl. the stores that hit no branch of the update macro, the scatter kernels that build temp, "
+             "smoothingSequential); theorems give_matrices_eq_take, give_inner_eq_take, give_temp_eq_take and give_sweep_eq_take_sweep: the "
+             "give code-level sweep returns the SAME array as the take code-level sweep (across the origin under antipodally symmetric "
+             "angular spacing; hk_needed / hnr_needed are the counterexamples), so every C06c / C06d theorem transfers — the clause 'gives "
+             "the same result with either strategy' as a theorem; tie: give / 1 thread stored entries, temp and line solves bit-identical "
+             "to the scatter model in double, 4 threads within the allowance.",
         design_ref="DESIGN.md section 4, C06 and R.9", note="the give variant's scatter assembly and the extrapolated smoothers are tied by correspondence to the take model / the spec; energy monotonicity across the origin inherits the C05 gap.",
         technique="Lean 4 proof about the relaxation spec + defect check of the implementation's output"),
     "C07": dict(
